@@ -39,6 +39,15 @@ CHECKS = {
     "C33": ("structural", "model_checking", "TLA+ Structural.tla: links and the conditional-format area and rule reference are displaced by the same sigma as formulas; Clear / Undo / CutPaste actions; ClearUndoIdentity invariant; every behaviour replayed and get_links_list / get_conditional_formatting_list compared",
             "Link positions, CF area and CF rule formula after every step of every behaviour (all structural edits, clear, undo of clear, cut and paste of a linked cell).",
             "One rule, one area; copy (not cut) and paste over occupied cells are not modelled here.", "4 C33"),
+    "C10": ("frames", "model_checking", "TLA+ FrameLaws.tla / Frames.tla (what each operation may change; small design model checked by TLC) and TraceFrames.tla: recorded operation events validated by TLC against the law of their action",
+            "SetLanguage leaves values, stored formulas, names and conditional formats unchanged; SetLocale leaves stored formulas, names, conditional formats and locale-independent values unchanged; shown content typed back in any language leaves the stored formula and values unchanged - on seeded random sequences over 5 languages x 6 locales.",
+            "One workbook; sampled sequences (80 quick / 1200 thorough runs of 25 operations).", "4 C10"),
+    "C17": ("frames", "model_checking", "TLA+ FrameLaws.tla (RenameInRefs, DupValuesOK, RenameCaptures) / Frames.tla design model / TraceFrames.tla trace validation",
+            "Rename: values unchanged, every spelled sheet name follows the rename and all others (incl. nonexistent sheets) are unchanged; move: values and spellings unchanged; duplicate: old sheets unchanged, the copy computes what its source computes - in every language.",
+            "Formulas reading sheet names as text are excluded; a rename that captures dangling references carries no value verdict.", "4 C17"),
+    "C32": ("frames", "model_checking", "TLA+ FrameLaws.tla (RenameInNames, RenameInUses, NamesSurviveDelete) / TraceFrames.tla trace validation",
+            "Stored names unchanged by language, locale, sheet move, reload and xlsx round trip; follow sheet renames; survive deleting other sheets; renaming a name (global, local, LAMBDA, range) updates its uses and changes no value.",
+            "The xlsx leading-'=' difference of LAMBDA names is a recorded finding.", "4 C32"),
     "C18": ("reentry", "model_checking", "TLA+ Reentry.tla (Reenter is a stuttering step of the 4-component cell; also the input space) enumerated by TLC; TraceReentry.tla validates the recorded type / re-enter events of every input x language/locale pair",
             "Exhaustive over all strings up to length 3 (thorough 4) over a 17-character alphabet plus a 145-entry vocabulary, in 8 (thorough 12) language/locale pairs; content, type, style and 15-digit value compared as interned ids by TLC.",
             "Fresh default-styled cells only; pre-styled cells are future growth.", "4 C18"),
@@ -120,6 +129,7 @@ def main():
             {"name": "cases", "path": "spec/{Calendar,Grid,Lang,F4,NumberInput,NumberFormat}.tla, bin/fam_cases.py, harness/src/cases.rs", "serves_properties": ["C08", "C09", "C11", "C25", "C29", "C30", "C19", "C20", "C21", "C22", "C23", "C34"], "kind_free_text": "TLC case enumeration with expected results, replayed on the implementation"},
             {"name": "structural", "path": "spec/Structural.tla, bin/fam_cases.py (StructuralFam), harness/src/structural.rs", "serves_properties": ["C12", "C13", "C14", "C15", "C33"], "kind_free_text": "TLC behaviour enumeration with expected abstract state, replayed on the implementation"},
             {"name": "xlsxrt", "path": "spec/Xlsx.tla, spec/TraceXlsx.tla, bin/fam_xlsx.py, harness/src/xlsxrt.rs", "serves_properties": ["C24"], "kind_free_text": "TLC trace validation of recorded export/import round trips"},
+            {"name": "frames", "path": "spec/FrameLaws.tla, spec/Frames.tla, spec/TraceFrames.tla, bin/fam_xlsx.py, harness/src/frames.rs", "serves_properties": ["C10", "C17", "C32"], "kind_free_text": "TLC trace validation of per-operation frame laws"},
             {"name": "reentry", "path": "spec/Reentry.tla, spec/TraceReentry.tla, bin/fam_xlsx.py, harness/src/reentry.rs", "serves_properties": ["C18"], "kind_free_text": "TLC input enumeration + trace validation of type / re-enter events"},
             {"name": "structure", "path": "spec/TraceWellFormed.tla", "serves_properties": ["C27"], "kind_free_text": "TLC trace validation of a state predicate"},
         ],
